@@ -10,7 +10,7 @@ import random
 
 from .. import record
 
-BODIES = ["ring", "ring", "shape", "reduce", "call", "deriv", "align", "construct", "lead", "roundtrip", "dtype", "keys"]
+BODIES = ["ring", "ring", "shape", "reduce", "call", "deriv", "align", "construct", "lead", "roundtrip", "dtype", "keys", "text"]
 BOOLS = ["retain_names", "retain_coefficients", "sort_graded", "sort_reverse", "display_graded", "display_reverse",
          "display_inverse", "force_number_suffix"]
 
